@@ -174,14 +174,17 @@ def analyse(case):
                 nid(d['name'])
                 for x in d['deps'] + d['fileDep'] + d['targets']:
                     nid(x)
-                if d['group']:
-                    groups.add(d['name'])
-                else:
-                    has_action.add(d['name'])
+                if not d['group']:
                     if d.get('utd'):
                         utd.add(d['name'])
                     if d.get('fails'):
                         fails.add(d['name'])
+                if T not in placeholders(cr):
+                    continue    # abnormal `to_load` (open finding): names only, not part of the declared output
+                if d['group']:
+                    groups.add(d['name'])
+                else:
+                    has_action.add(d['name'])
             make.append((c, T, lst))
     rx = []
     for w in words:
@@ -199,7 +202,7 @@ def analyse(case):
                         matches.append((l, w))
                 except re.error:
                     pass
-    no_act = [n for n in names if n not in has_action or (n in groups and n not in static_names)]
+    no_act = [n for n in names if n not in has_action]
     return {'names': names, 'idx': idx, 'loaders': loaders, 'make': make, 'rx': rx, 'matches': matches,
             'utd': sorted(utd), 'fails': sorted(fails), 'noAct': no_act, 'static_targets': static_targets,
             'cand': cand, 'subwords': subwords}
@@ -229,7 +232,8 @@ def load_order(case):
 def to_request(case, obs, an=None, op='check'):
     an = an or analyse(case)
     ix = an['idx']
-    tasks = [[ix[n], {'deps': [ix[d] for d in deps], 'loader': l, 'fileDep': [], 'targets': [ix[f] for f in tg]}]
+    tasks = [[ix[n], {'deps': [ix[d] for d in deps], 'loader': l, 'fileDep': [], 'targets': [ix[f] for f in tg],
+                      'act': l is None}]
              for n, deps, l, tg in load_order(case)]
     req = {'model': 'delayed', 'op': op, 'tasks': tasks,
            'targets': [[ix[f], ix[t]] for f, t in an['static_targets'].items()],
@@ -238,7 +242,8 @@ def to_request(case, obs, an=None, op='check'):
                         'regex': bool(case['creators'][c]['regex'])} for p, c in an['loaders']],
            'make': [[c, ix[T], [{'name': ix[d['name']], 'deps': [ix[x] for x in d['deps']],
                                  'fileDep': [ix[x] for x in d['fileDep']],
-                                 'targets': [ix[x] for x in d['targets']]} for d in lst]] for c, T, lst in an['make']],
+                                 'targets': [ix[x] for x in d['targets']], 'act': not d['group']}
+                                for d in lst]] for c, T, lst in an['make']],
            'matches': [[l, ix[w]] for l, w in an['matches']], 'auto': bool(case.get('auto')),
            'rxName': [[ix[w], ix[t], ix[s]] for w, t, s in an['rx']],
            'sel': ([{'w': ix[w], 'base': ix[w.split(':', 1)[0]]} for w in case['sel']]
@@ -254,6 +259,9 @@ def to_request(case, obs, an=None, op='check'):
 # ======================================================================================================
 # 2. running the real doit
 # ======================================================================================================
+
+_SRC_COUNTER = 0
+
 
 class Act(object):
     """python-action of a generated task (a picklable object: delayed-created tasks are pickled whole by MRunner)"""
@@ -327,16 +335,32 @@ def build_namespace(case, rec):
             kw['creates'] = list(cr['creates'])
         if cr['regex']:
             kw['target_regex'] = cr['regex']
-        return create_after(**kw)(creator)
+        return creator, kw
 
+    bodies = {}
     for item in case['order']:
         if item == '@static':
-            ns['task_static0'] = static_gen(False)
+            bodies['task_static0'] = (static_gen(False), None)
         elif item == '@late':
-            ns['task_static1'] = static_gen(True)
+            bodies['task_static1'] = (static_gen(True), None)
         else:
             c = [i for i, cr in enumerate(case['creators']) if cr['fname'] == item][0]
-            ns['task_' + item] = delayed(c, case['creators'][c])
+            bodies['task_' + item] = delayed(c, case['creators'][c])
+    # load_tasks orders the creators by source line: give every function its own line in a synthetic source file
+    import linecache
+    global _SRC_COUNTER
+    _SRC_COUNTER += 1
+    fname = '/c15gen/case%d_%d.py' % (os.getpid(), _SRC_COUNTER)
+    src = ''
+    env = {}
+    for i, (key, (body, kw)) in enumerate(bodies.items()):
+        env['_body_%d' % i] = body
+        src += 'def %s():\n    return _body_%d()\n\n' % (key, i)
+    linecache.cache[fname] = (len(src), None, src.splitlines(True), fname)
+    exec(compile(src, fname, 'exec'), env)
+    for i, (key, (body, kw)) in enumerate(bodies.items()):
+        f = env[key]
+        ns[key] = create_after(**kw)(f) if kw is not None else f
     ns['DOIT_CONFIG'] = {'dep_file': 'db.json', 'backend': 'json', 'verbosity': 0, 'reporter': runlib.RecReporter}
     return ns
 
@@ -427,6 +451,8 @@ def run_impl(case):
     else:
         errc = ERRMAP.get(err, 'crash')
     se = o.get('stderr', '')
+    if errc == 'none' and any(e[0] == 'runtime_error' for e in o.get('raw', [])):
+        errc = 'duptarget'      # InvalidTask caught by Runner.run_all (reporter.runtime_error, exit 2)
     if 'Must be a task, or a target' in se or 'not_found' in se:
         errc = 'notfound'
     elif "can't have a common target" in se:
